@@ -32,8 +32,8 @@ CHECKS = {
    ref="DESIGN.md section 4 C15"),
  "C17": dict(cat="exploration", engine="libmc",
    technique="bounded-exhaustive enumeration of payloads and of single/adjacent-pair byte mutations of encoded seeds, against the package's own decoder and the system xz tool",
-   text="Every payload over {00,5A,FF} up to length 8 (thorough 9) and structured long payloads (carry chains, chunk-size boundaries) x {LZMA, XZ}: Decode(Encode(p)) == p with nothing left over, and xz -dc decodes the same bytes (batched). Robustness: every byte string of length <= 2, every truncation, deletion, insertion, single-byte and adjacent-pair replacement of 9-10 seeds per format: no panic, no hang, output <= 64*len(in)+64KiB.",
-   note="Trusts the system xz tool as the independent decoder (reported as SKIPPED, not passed, if absent). The cross-check against the generated Wuffs std/lzma and std/xz C decoders is made by the C-level checks, not here.",
+   text="Every payload over {00,5A,FF} up to length 8 (thorough 9) and structured long payloads (carry chains, chunk-size boundaries) x {LZMA, XZ}: Decode(Encode(p)) == p with nothing left over, xz -dc decodes the same bytes (batched), and the Wuffs std/lzma and std/xz decoders (C freshly generated from the working tree, through the C state server) decode the same bytes with status ok and all input consumed. Robustness: every byte string of length <= 2, every truncation, deletion, insertion, single-byte and adjacent-pair replacement of 9-10 seeds per format: no panic, no hang, output <= 64*len(in)+64KiB.",
+   note="Trusts the system xz tool as the independent decoder (reported as SKIPPED, not passed, if absent).",
    ref="DESIGN.md section 4 C17"),
  "C16": dict(cat="exploration", engine="libmc",
    technique="bounded-exhaustive enumeration of (DEFLATE/zlib stream, maxEncodedLen) pairs: every limit of every enumerated stream on the real Cut, decoded with compress/flate|zlib and compared with the original payload",
